@@ -193,6 +193,15 @@ class Compiler:
         """evaluate n, emitting code for calls with effects; returns an expression"""
         if isinstance(n, ast.Call):
             path = attr_path(n.func)
+            if path in self.env and self.env[path].kind == 'tsem_base_release':
+                o = self.env[path]
+                # threading.Semaphore.release(self): `with self._cond: self._value += n; self._cond.notify(n)`
+                self.asm.emit('lock_acq', o.lock)
+                self.asm.emit('sh_add', o.var, 1)
+                self.asm.emit('lock_rel', o.lock)
+                return ('const', 0)
+            if '.' in path and tuple(path.rsplit('.', 1)) in self.methods:
+                return self.inline(tuple(path.rsplit('.', 1)), n, dst)
             if path.endswith('.acquire'):
                 o = self.lookup(path[:-len('.acquire')])
                 args = n.args
@@ -333,6 +342,15 @@ class Compiler:
         if isinstance(s, ast.Assign) and len(s.targets) == 1:
             t = s.targets[0]
             if isinstance(t, ast.Name):
+                if isinstance(s.value, ast.Attribute):
+                    try:
+                        src = attr_path(s.value)
+                    except Unsupported:
+                        src = None
+                    if src in self.env and self.env[src].kind in ('pycond', 'cond', 'lock', 'sem'):
+                        self.env = dict(self.env)
+                        self.env[t.id] = self.env[src]        # a local alias of a synchronisation object (cond = self._cond)
+                        return
                 v = self.value(s.value, dst=None)
                 a.emit('set', self.loc(t.id), v)
                 return
